@@ -110,7 +110,8 @@ impl Mul<f64> for Duration {
         loop {
             // 10^38 is the largest power of ten that fits in an i128: past that precision the
             // digits that are left cannot move the product by a nanosecond anyway.
-            if (new_val.floor() - new_val).abs() < f64::EPSILON || p >= 38 {
+            // (An absolute tolerance would take every factor below f64::EPSILON for the integer zero.)
+            if new_val.fract() == 0.0 || p >= 38 {
                 // Yay, we've found the precision of this number
                 break;
             }
